@@ -761,6 +761,8 @@ pub open spec fn auth_loop_inv(g0: Authorisation, g: Authorisation, need_room_ad
                         && (old(room).authorisations@.contains_key(id) ==> final(room).authorisations@[id] == old(room).authorisations@[id])),
             // [group_rows_carry_no_room_id]{C01}
             r is Ok ==> old(insert_entity).node_to_mutate.room_id is None && old(insert_entity).edge_deletions@.len() == 0,
+            // [group_of_another_room_never_adopted]{C01} a group this room does not hold is accepted only as a NEW group (a row that did not exist before): an existing group row - a group of another room - is never changed through this room
+            r is Ok && !old(room).authorisations@.contains_key(old(insert_entity).node_to_mutate.id) ==> old(insert_entity).node_to_mutate.old_node is None,
 //@ end
 } // verus!
 fn main() {}
